@@ -167,15 +167,21 @@ def direct_metric(lens, typ, inp):
     raise KeyError(typ)
 
 
-def merit_oracle(lens, ops):
-    """sum_k (w_k (value_k - target_k))^2 with the operand values taken from the lens directly."""
+def merit_oracle(lens, ops, with_cond=False):
+    """sum_k (w_k (value_k - target_k))^2 with the operand values taken from the lens directly.
+    cond = sum 2 w^2 |v - t| |v|: the change of the merit per unit RELATIVE change of the operand values (the scale on
+    which two evaluations on lenses that differ by rounding can be compared when v ~ t cancels)."""
     tot = 0.0
+    cond = 0.0
     terms = []
     for typ, target, weight, inp in ops:
         v = direct_metric(lens, typ, inp)
         t = (weight * (v - target)) ** 2
         terms.append(t)
         tot += t
+        cond += 2 * weight ** 2 * abs(v - target) * abs(v)
+    if with_cond:
+        return tot, terms, (cond if math.isfinite(cond) else 0.0)
     return tot, terms
 
 
@@ -347,8 +353,25 @@ def observe_run(c, fe, opts, nan_at=None, np_seed=0):
     o['snap_before'], o['snap_labels'] = flat_snapshot(lens)
     o['x0'] = values(problem)
     o['m0'] = penal(problem.sum_squared())
-    o['m0_oracle'] = penal(merit_oracle(lens, c.ops)[0])
+    _m, _t, o['cond0'] = merit_oracle(lens, c.ops, with_cond=True)
+    o['m0_oracle'] = penal(_m)
     o['bounds_given'] = [[None if b is None else float(b) for b in v.bounds] for v in problem.variables]
+    # rounding sensitivity of the merit: the first objective evaluation re-sets every variable through update(value),
+    # which moves the lens by rounding; the same round trip on a deep copy (index variables on catalogue glasses left
+    # alone: that is not rounding) shows how far the merit moves
+    o['round_sens'] = 0.0
+    try:
+        twin = copy.deepcopy(lens)
+        for vs, xv in zip(c.vars, o['x0']):
+            if vs['kind'] == 'index' and not type(twin.surface_group.surfaces[vs['kw']['surface_number']].material_post).__name__ == 'IdealMaterial':
+                continue
+            make_variable(twin, vs).update(xv)
+        twin.update()
+        m_rt = merit_oracle(twin, c.ops)[0]
+        if math.isfinite(m_rt) and math.isfinite(o['m0_oracle']):
+            o['round_sens'] = abs(m_rt - o['m0_oracle'])
+    except Exception:
+        pass
     o['raw0'] = [raw_get(lens, vs) for vs in c.vars]
     log = []
     fp = None
@@ -378,6 +401,9 @@ def observe_run(c, fe, opts, nan_at=None, np_seed=0):
     o['fault_evals'] = [[i, l[1]] for i, l in enumerate(log) if l[2] > 0]
     o['fault_fired'] = fp.fired if fp is not None else 0
     o['nonfinite_objectives'] = int(sum(1 for l in log if not math.isfinite(l[1])))
+    o['nan_objectives'] = int(sum(1 for l in log if math.isnan(l[1])))
+    # variables that scipy ever set to a non-finite trial value
+    o['nonfinite_x_vars'] = sorted(set(i for l in log for i, t in enumerate(l[0]) if not math.isfinite(t)))
     if err is not None:
         o['error'] = f'{type(err).__name__}: {err}'
         o['error_kind'] = _error_kind(err)
@@ -392,12 +418,15 @@ def observe_run(c, fe, opts, nan_at=None, np_seed=0):
     o['returned_point_faulted'] = bool(any(l[2] > 0 and len(l[0]) == len(xr) and np.array_equal(np.asarray(l[0]), xr) for l in log))
     o['last_eval_faulted'] = bool(log and log[-1][2] > 0)
     o['returned_fun_is_logged_value'] = bool(any(l[1] == fun for l in log))
+    _vx = [l[1] for l in log if len(l[0]) == len(xr) and np.array_equal(np.asarray(l[0]), xr)]
+    o['value_at_returned_x'] = (_vx[-1] if _vx else None)
     o['returned_x_evaluated'] = bool(any(len(l[0]) == len(xr) and np.array_equal(np.asarray(l[0]), xr) for l in log))
     o['returned_point_evaluated'] = bool(any(len(l[0]) == len(xr) and np.array_equal(np.asarray(l[0]), xr) and l[1] == fun for l in log))
     o['message'] = str(getattr(res, 'message', ''))[:120]
     o['values_after'] = values(problem)
     o['merit_after'] = penal(problem.sum_squared())
-    o['merit_after_oracle'] = penal(merit_oracle(lens, c.ops)[0])
+    _m, _t, o['cond_after'] = merit_oracle(lens, c.ops, with_cond=True)
+    o['merit_after_oracle'] = penal(_m)
     o['raw_after'] = [raw_get(lens, vs) for vs in c.vars]
     o['dependents'] = dependents(c)
     o['stack_len'] = len(c.optimizer._x) if c.optimizer is not None else None
